@@ -488,8 +488,11 @@ impl Check for C04 {
             0 => None,
             1 => Some(64),
             2 => Some(usize::MAX),
+            // capacities of arbitrary magnitude (rare), so that size-dependent paths are crossed
+            3 if g.chance(1, 6) => Some(g.log_uniform(7, 5000)),
             _ => Some(g.usize_below(7)),
         };
+        let roomy = cap0.is_some_and(|c| (7..usize::MAX).contains(&c) && c != 64);
         // swarm: a random weight per op kind, some switched off
         let mut w = [0u32; 14];
         for x in &mut w {
@@ -498,12 +501,14 @@ impl Check for C04 {
         if w.iter().all(|x| *x == 0) {
             w[0] = 1;
         }
-        let n = g.urange(1, 40);
+        let n = if g.chance(1, 50) { g.urange(41, 300) } else { g.urange(1, 40) };
+        let bound = cap0.filter(|_| roomy).unwrap_or(70);
         let small = |g: &mut Xo| -> usize {
             match g.below(8) {
                 0 => 0,
                 1..=4 => g.urange(1, 3),
                 5 | 6 => g.urange(4, 8),
+                _ if roomy && g.coin() => g.log_uniform(9, bound + 2),
                 _ => g.urange(9, 70),
             }
         };
@@ -523,6 +528,7 @@ impl Check for C04 {
                 11 => Op::SetMax(match g.below(6) {
                     0 => usize::MAX,
                     1 => 64,
+                    2 if roomy => g.log_uniform(1, bound + 2),
                     _ => g.usize_below(8),
                 }),
                 12 => Op::Queries,
